@@ -69,6 +69,11 @@ def sim_spec(name):
         base['algorithm_params'] = {'trunc_params': {'chi_max': 6, 'svd_min': 1e-10}, 'max_sweeps': 4, 'min_sweeps': 4, 'N_sweeps_check': 1,
                                     'mixer': None}
         if name.startswith('dmrg2'):
+            # default min_sweeps (the convergence test runs at every checkpoint and needs the statistics of the previous sweeps),
+            # convergence decided by the engine (reached after the 4th of at most 6 sweeps), chi_max raised on a schedule
+            base['model_params']['L'] = 6
+            base['algorithm_params'].update({'min_sweeps': 1, 'max_sweeps': 6, 'max_E_err': 1e-9, 'max_S_err': 1e-6,
+                                             'chi_list': {0: 2, 1: 4, 2: 8}})
             # one measurement per checkpoint: a duplicated / lost one shows in the history (not with a mixer: the default
             # measurements need diagonal singular values and report errors while the mixer is on)
             base['measure_at_algorithm_checkpoints'] = True
@@ -334,7 +339,7 @@ def case_resume(ctx, i):
             ov = abs(np.vdot(want['psi_vec'], fin['psi_vec'])) / (np.linalg.norm(want['psi_vec']) * np.linalg.norm(fin['psi_vec']))
             if ov < 1 - 1e-7:
                 ctx.violation('resume:%s:final-state-differs' % name.split('_')[0], 'overlap with the uninterrupted final state %r' % ov, case)
-        if 'energy' in want and abs(want['energy'] - fin.get('energy', np.nan)) > 1e-8:
+        if 'energy' in want and not (abs(want['energy'] - fin.get('energy', np.nan)) <= 1e-8):
             ctx.violation('resume:%s:final-energy-differs' % name.split('_')[0], '%r vs %r' % (want['energy'], fin.get('energy')), case)
         ctx.sig((name, 'resume', c), nontrivial=True)
         ctx.sample(case)
